@@ -497,3 +497,34 @@ def decide_pointer(fx, body):
                          "an index is put on the guard before its object is rendered and taken off afterwards on every successful path: %s; an index already on the guard fails: %s%s" % (
                              guard_ok, cyc, "" if guard_ok else " — a visited-set rejects acyclic values that reach the same object twice (shared substructure must print)")))
     return rows
+
+
+def decide_entry(fx, entry_body, renderer_path_prefix="bytecode::heap::Pointer::evaluate_as_string_on_path"):
+    """the renderer `print` calls: on every path it returns what the recursive renderer returns for this pointer, started
+    on an empty guard — nothing is remembered between prints (a memo would show a stale text after a nested value
+    changed), nothing is post-processed"""
+    ex = Executor(fx, PC())
+    params = entry_body["params"]
+    args = [("var", p.get("name") or "_") for p in params]
+    res = ex.run_body(entry_body, args, State())
+    bad = []
+    n = 0
+    for s, o in res:
+        n += 1
+        calls = [e for e in s.eff if e["k"] == "call" and e["args"][0][1].startswith(renderer_path_prefix)]
+        if len(calls) != 1:
+            bad.append("a path makes %d call(s) to the recursive renderer" % len(calls))
+            continue
+        c = calls[0]
+        self_ok = c["args"][1] == args[0] and (len(c["args"]) < 3 or c["args"][2] == args[1])
+        guard = c["args"][3] if len(c["args"]) > 3 else None
+        guard_ok = guard is None or guard == ("app", "array", ()) or (isinstance(guard, tuple) and guard[:1] == ("obj",) and not any(
+            e["k"] == "call" and len(e["args"]) > 1 and e["args"][1] == guard and e is not c for e in s.eff))
+        val_ok = o[0] == "val" and o[1] in (c.get("res"), ("ok", ("payload", c.get("res"))), ("err", ("errof", c.get("res"))))
+        others = [e for e in s.eff if e["k"] == "call" and e is not c and not e["args"][0][1].endswith(("Vec::<T>::new", "::new"))]
+        if not (self_ok and guard_ok and val_ok):
+            bad.append("renders this pointer on this heap: %s; starts on an empty guard: %s; returns the renderer's result unchanged: %s" % (self_ok, guard_ok, val_ok))
+        elif others:
+            bad.append("also calls %s" % sorted({e["args"][0][1].rsplit("::", 2)[-2] + "::" + e["args"][0][1].rsplit("::", 1)[-1] for e in others})[:4])
+    ok = n > 0 and not bad
+    return ok, ("%d path(s): each is one call of the recursive renderer on this pointer with a fresh guard, result returned unchanged" % n) if ok else "; ".join(sorted(set(bad)))[:300]
